@@ -244,6 +244,11 @@ func init() {
 						if cls == clsDirectB && i%4 == 3 {
 							k, s = key(r, clsOldLive, i), minSlot-2
 						}
+						if cls == clsDirectA && i == 0 {
+							// an old root of this round is seen again with a recent slot while the clean runs
+							// (a clean that decided on the old slot must not remove the new mapping)
+							k = key(r, clsOld, 0)
+						}
 						rec.set(k, s, func() { svc.SetBlockRootToSlot(c17linRoot(k), phase0.Slot(s)) })
 						runtime.Gosched()
 					}
